@@ -311,6 +311,15 @@ const char* pv_seed_mismatch(const polyseed_data* s, const pv_mseed* m, unsigned
 polyseed_data* pv_seed_from_model(const pv_mseed* m);
 const char* pv_status_name(int st);
 
+/* the same clause under contention: `nthreads` threads, each with its own thread-local world (yields inside the dependency
+ * callbacks widen the windows), run `iters` iterations of `fn` on private seeds at the same time.  fn returns false and
+ * describes the first problem in err when what it observed differs from the model; it must release what it allocates. */
+typedef bool (*pv_conc_fn)(pv_rng* r, int iter, void* user, char* err, size_t errsz);
+typedef struct pv_conc_result { uint64_t good, bad; int leaked; char first[400]; } pv_conc_result;
+void pv_concurrent(int nthreads, int iters, uint64_t seed, int yield_pct, pv_conc_fn fn, void* user, pv_conc_result* out);
+/* records the outcome under "<prop>/<key>" / counter; returns true if every thread was clean */
+bool pv_concurrent_verdict(const pv_conc_result* res, int nthreads, int iters, const char* vio_key, const char* counter);
+
 /* ------------------------------------------------------------------ generators */
 void pv_gen_secret(pv_rng* r, uint8_t secret[PV_SECRET]);        /* boundary-biased */
 void pv_gen_mseed(pv_rng* r, unsigned enabled, bool allow_encrypted, pv_mseed* s);
